@@ -8,13 +8,13 @@ import (
 	"github.com/restic/restic/internal/verifrt"
 )
 
-type verifC42Repo struct{}
+type verifC42Repo struct{ conns uint }
 
 func (verifC42Repo) LoadBlob(context.Context, restic.BlobHandle, []byte) ([]byte, error) {
 	return nil, errors.New("not used: LoadTree is stubbed")
 }
 func (verifC42Repo) LookupBlobSize(restic.BlobHandle) (uint, bool) { return 100, true }
-func (verifC42Repo) Connections() uint                             { return 1 }
+func (r verifC42Repo) Connections() uint                           { return r.conns }
 
 type verifC42Counter struct{ n uint64 }
 
@@ -130,7 +130,7 @@ func VerifC42_FindUsedBlobs() {
 
 	blobs := restic.NewBlobSet()
 	p := &verifC42Counter{}
-	err := FindUsedBlobs(context.Background(), verifC42Repo{}, roots, blobs, p)
+	err := FindUsedBlobs(context.Background(), verifC42Repo{conns: uint(verifrt.Param("conns", 1))}, roots, blobs, p)
 
 	if missingReached {
 		verifrt.Reach("missing-tree")
